@@ -261,7 +261,7 @@ def run_text(shard):
     acc = Acc()
     bad = mkbad(acc)
     table = ci()
-    rows = [('stereo', s) for s in inputs.ring_stereo_family()] + [('poly', s) for s in ('C/C=C/C', 'C/C=C\\C', 'C/C=C/C=C/C', 'C/C=C/C=C\\C=C/C', 'CC=C=CC', 'C[C@H](O)/C=C/C=C=C(C)F', 'C/C=C/C/C=C/C/C=C\\C')]
+    rows = [('stereo', s) for s in inputs.ring_stereo_family()] + [('poly', s) for s in ('C/C=C/C', 'C/C=C\\C', 'C/C=C/C=C/C', 'C/C=C/C=C\\C=C/C', 'CC=C=CC', 'C[C@H](O)/C=C/C=C=C(C)F', 'C/C=C/C/C=C/C/C=C\\C', 'C/C=C=C=C/C', 'C/C=C=C=C\\C', 'F/C=C=C=C=C=C/F', 'C/C=C=C=C/C.C/C=C/C', 'CC(F)=[C@]=C(Cl)C', 'CC(F)=[C@@]=C(Cl)C')]
     rows += [('corpus', s) for s in M.corpus(stride=8 if tier == 'quick' else 1)]
     for i, (fam, s) in enumerate(rows):
         if i % nsh != k:
